@@ -522,7 +522,7 @@ impl<'a> PGen<'a> {
                     vec![self.expr(T::LNum, d1), lam(&["x"], cond(bin(".>", id("x"), num(2)), st("big"), st("small")))],
                 ),
             },
-            T::Fun => match self.rng.below(9) {
+            T::Fun => match self.rng.below(10) {
                 0 => self.leaf(T::Fun),
                 1 | 2 | 3 => {
                     let body = self.with_local("x", T::Num, |g| g.expr(T::Num, d1));
@@ -554,6 +554,21 @@ impl<'a> PGen<'a> {
                 7 => {
                     let body = self.with_local("x", T::Num, |g| g.expr(T::Num, d1));
                     E::Lam(vec![Arg::Req("x".into()), Arg::Rest("more".into())], Box::new(bin("+", body, call(id("len"), vec![id("more")]))))
+                }
+                8 => {
+                    // functions in a do-block that refer to one another before they are bound
+                    // (a chain of forward references); the first one leaves the block
+                    let n = self.rng.range(2, 4) as usize;
+                    let names = ["fa", "fb", "fc", "fd"];
+                    let mut stmts = vec![];
+                    for i in 0..n {
+                        let body = if i + 1 < n { bin("+", call(id(names[i + 1]), vec![id("x")]), num(i as i64 + 1)) } else { bin("*", id("x"), num(3)) };
+                        stmts.push(assign(names[i], lam(&["x"], body)));
+                    }
+                    if self.rng.chance(1, 2) {
+                        stmts.reverse(); // bound before use: no forward reference at all
+                    }
+                    doblk(stmts, id(names[0]))
                 }
                 _ => cond(self.expr(T::Bool, d1), self.expr(T::Fun, d1), self.expr(T::Fun, d1)),
             },
